@@ -1076,12 +1076,59 @@ func subsetLayout(r *rand.Rand, f *sfnt.Font, n int, info *Info) {
 		info.Classes = append(info.Classes, "layout:gsub1.1")
 	}
 	if len(gsub.LookupList) > 0 {
+		if r.IntN(3) == 0 {
+			// a one-component "ligature" (a -> x written as a ligature rule) in
+			// a lookup of its own, possibly before the others
+			a, x := gid(), gid()
+			one := &gtab.LookupTable{Meta: &gtab.LookupMetaInfo{LookupType: 4}, Subtables: []gtab.Subtable{
+				&gtab.Gsub4_1{Cov: map[glyph.ID]int{a: 0}, Repl: [][]gtab.Ligature{{{In: []glyph.ID{}, Out: x}}}}}}
+			if r.IntN(2) == 0 {
+				gsub.LookupList = append(gtab.LookupList{one}, gsub.LookupList...)
+			} else {
+				gsub.LookupList = append(gsub.LookupList, one)
+			}
+			info.Classes = append(info.Classes, "layout:gsub4.1-one-component")
+		}
+		if len(gsub.LookupList) > 1 && r.IntN(3) == 0 {
+			// any order of the lookups (single substitutions before ligatures)
+			r.Shuffle(len(gsub.LookupList), func(i, j int) {
+				gsub.LookupList[i], gsub.LookupList[j] = gsub.LookupList[j], gsub.LookupList[i]
+			})
+			info.Classes = append(info.Classes, "layout:lookup-order-shuffled")
+		}
+		if r.IntN(4) == 0 {
+			for _, l := range gsub.LookupList {
+				l.Meta.LookupFlags = gtab.RightToLeft // (no GDEF: the ignore flags could not act)
+			}
+		}
 		feat := &gtab.Feature{Tag: "liga"}
 		for i := range gsub.LookupList {
 			feat.Lookups = append(feat.Lookups, gtab.LookupIndex(i))
 		}
 		gsub.FeatureList = gtab.FeatureListInfo{feat}
 		gsub.ScriptList[und].Optional = []gtab.FeatureIndex{0}
+		if r.IntN(3) == 0 {
+			// several features and scripts: a second default feature sharing
+			// a lookup, a feature that is off by default, a required feature,
+			// a lookup that no feature uses
+			nl := len(gsub.LookupList)
+			second := &gtab.Feature{Tag: []string{"calt", "ccmp", "clig"}[r.IntN(3)], Lookups: []gtab.LookupIndex{gtab.LookupIndex(r.IntN(nl))}}
+			off := &gtab.Feature{Tag: "ss01", Lookups: []gtab.LookupIndex{gtab.LookupIndex(r.IntN(nl))}}
+			if nl > 1 && r.IntN(2) == 0 {
+				feat.Lookups = feat.Lookups[:nl-1] // the last lookup is used by ss01 only, or by nobody
+			}
+			gsub.FeatureList = gtab.FeatureListInfo{feat, second, off}
+			gsub.ScriptList[und].Optional = []gtab.FeatureIndex{0, 1, 2}
+			latn := &gtab.Features{Required: 0xFFFF, Optional: []gtab.FeatureIndex{0, 2}}
+			if r.IntN(2) == 0 {
+				latn.Required = 1
+			}
+			gsub.ScriptList[language.MustParse("und-Latn-x-latn")] = latn
+			if r.IntN(2) == 0 {
+				gsub.ScriptList[language.MustParse("de-Latn-x-latn-deu")] = &gtab.Features{Required: 0xFFFF, Optional: []gtab.FeatureIndex{1}}
+			}
+			info.Classes = append(info.Classes, "layout:several-features-and-scripts")
+		}
 		f.Gsub = gsub
 	}
 	// GPOS 2.1
